@@ -366,6 +366,7 @@ type layoutContext struct {
 	marginClearance bool
 	forcedBreak     bool
 	inColumn        bool
+	inFootnoteArea  bool // true while the footnote area itself is laid out
 }
 
 // presentationalHints=false,
@@ -566,9 +567,12 @@ func (l *layoutContext) updateFootnoteArea() bool {
 	l.currentFootnoteArea.Children = l.currentPageFootnotes
 	if len(l.currentFootnoteArea.Children) != 0 {
 		footnoteArea := bo.CreateAnonymousBox(bo.Deepcopy(l.currentFootnoteArea)).(bo.BlockLevelBoxITF)
+		inFootnoteArea := l.inFootnoteArea
+		l.inFootnoteArea = true
 		footnoteArea, _, _ = blockLevelLayout(
 			l, footnoteArea, -pr.Inf, nil,
 			&l.currentFootnoteArea.Page.BoxFields, true, nil, nil, nil, false, -1)
+		l.inFootnoteArea = inFootnoteArea
 		l.currentFootnoteArea.Height = footnoteArea.Box().Height
 		if !l.inColumn {
 			l.pageBottom -= footnoteArea.Box().MarginHeight()
